@@ -50,10 +50,15 @@ func c02cbDeref(t types.Type) types.Type {
 	return t
 }
 
+// c02cbInlined: unexported helper methods of the wrapper that were read in place at a call site; they have no rows of
+// their own (what they do is accounted for where they are called)
+var c02cbInlined = map[string]bool{}
+
 type c02cbWalk struct {
 	p      *packages.Package
 	method string
 	recv   types.Object
+	depth  int          // helper methods being read in place
 	inner  string       // method of the wrapped schedule that was called
 	val    types.Object // its first result
 	ok     types.Object // its second result (Next)
@@ -189,6 +194,42 @@ func (w *c02cbWalk) walk(stmts []ast.Stmt, cond string) bool {
 					}
 				}
 			}
+			// s.helper(): a method of the wrapper without parameters and results (an extracted helper): its statements in
+			// place, under the same path condition (round 6)
+			if ok && len(call.Args) == 0 && w.depth < 2 {
+				if sel, ok := call.Fun.(*ast.SelectorExpr); ok && w.isRecv(sel.X) {
+					if si := w.p.TypesInfo.Selections[sel]; si != nil && si.Kind() == types.MethodVal {
+						var callee *ast.FuncDecl
+						for _, f := range w.p.Syntax {
+							for _, d := range f.Decls {
+								if fd, ok := d.(*ast.FuncDecl); ok && fd.Body != nil && w.p.TypesInfo.Defs[fd.Name] == si.Obj() {
+									callee = fd
+								}
+							}
+						}
+						if callee != nil && callee.Type.Params.NumFields() == 0 && (callee.Type.Results == nil || callee.Type.Results.NumFields() == 0) &&
+							len(callee.Recv.List) == 1 && len(callee.Recv.List[0].Names) == 1 {
+							hasRet := false
+							ast.Inspect(callee.Body, func(n ast.Node) bool {
+								if _, isRet := n.(*ast.ReturnStmt); isRet {
+									hasRet = true
+								}
+								return !hasRet
+							})
+							if !hasRet {
+								c02cbInlined[callee.Name.Name] = true
+								saved := w.recv
+								w.recv = w.p.TypesInfo.Defs[callee.Recv.List[0].Names[0]]
+								w.depth++
+								w.walk(callee.Body.List, cond)
+								w.depth--
+								w.recv = saved
+								continue
+							}
+						}
+					}
+				}
+			}
 			w.row(c02cbShow(cond), ".other "+strconv.Quote(c02cbSrc(w.p, st)))
 		case *ast.ReturnStmt:
 			// must hand back exactly the results of the wrapped call
@@ -225,6 +266,7 @@ func (w *c02cbWalk) walk(stmts []ast.Stmt, cond string) bool {
 
 func c02cbExtra(t *tr) string {
 	p := t.pkg
+	c02cbInlined = map[string]bool{}
 	const typeName = "callbackOnFinishSchedule"
 	var rows [][4]string
 	var fields [][2]string
@@ -288,6 +330,16 @@ func c02cbExtra(t *tr) string {
 	}
 	if !found {
 		t.errs = append(t.errs, "type "+typeName+" not found in "+p.PkgPath)
+	}
+	{
+		var kept [][4]string
+		for _, r := range rows {
+			if c02cbInlined[r[0]] && r[0] != "" && !ast.IsExported(r[0]) {
+				continue
+			}
+			kept = append(kept, r)
+		}
+		rows = kept
 	}
 	sort.Slice(rows, func(i, j int) bool {
 		for c := 0; c < 4; c++ {
